@@ -261,7 +261,7 @@ theorem relW_finish (s : St) (ms : WaitSt) (t : Nat) (a b : TS) (ran : Bool)
     (htidy : ms.disc = true → Tidy { s with th := s.th.set t b })
     (hca : ∀ e, CorrW ms.xposs s.cx t e a → ∃ sv, e = .hold sv true)
     (hcb : ∀ xp sv, CorrW xp s.cx t (.hold sv false) b)
-    (hpa : TS.pendingProg a = none) (hpb : TS.pendingProg b = none)
+    (hpb : TS.pendingProg b = none)
     (hsa : ∀ saved v, SoloOK s.x saved v a → if ran then s.x = v else s.x ∈ saved) :
     RelW { s with th := s.th.set t b } (ms.finish t ran) := by
   obtain ⟨et, het, hmt⟩ := hR.corr t a ha
@@ -365,5 +365,380 @@ theorem relW_finish (s : St) (ms : WaitSt) (t : Nat) (a b : TS) (ran : Bool)
       · exact k3 u ts q v' hut h0 hq hl
     · rw [hnset, hcalls]; omega
     · intro d saved hs; rw [hsolo'] at hs; cases hs
+
+
+/-! ## group D: a call is invoked -/
+
+theorem getElem?_map_see (v : Nat) (l : List WEntry) (u : Nat) :
+    (l.map (WEntry.see v))[u]? = (l[u]?).map (WEntry.see v) := by simp
+
+theorem relW_invHold (s : St) (ms : WaitSt) (b : TS) (p : Prog)
+    (hR : RelW s ms) (hinv : Inv { s with th := s.th ++ [b] })
+    (htidy : ms.disc = true → Prog.disciplined p = true → Tidy { s with th := s.th ++ [b] })
+    (hpb : TS.pendingProg b = some p)
+    (hcb : ∀ xp, CorrW xp s.cx s.th.length (.hold (lastSet p) true) b)
+    (hsb : ∀ x saved v, x ∈ saved → SoloOK x saved v b) (t : Nat) (k : HKind) :
+    ∃ ms', monWait.step ms (.invHold t k p) = some ms' ∧ RelW { s with th := s.th ++ [b] } ms' := by
+  have oldT : ∀ (u : Nat) (ts : TS), (s.th ++ [b])[u]? = some ts →
+      (u < s.th.length ∧ s.th[u]? = some ts) ∨ (u = s.th.length ∧ ts = b) :=
+    fun u ts hu => getElem?_snoc_cases s.th b ts u hu
+  have hdisc : ∀ d, (d = (ms.disc && ((lastSet p).isNone || p.hasBcast))) → d = true →
+      Tidy { s with th := s.th ++ [b] } := by
+    intro d hd hdt
+    rw [hd] at hdt; simp at hdt
+    exact htidy hdt.1 (by unfold Prog.disciplined; simpa using hdt.2)
+  simp only [monWait]
+  cases hl : lastSet p with
+  | none =>
+    refine ⟨_, rfl, ?_⟩
+    refine ⟨hinv, by simp [hR.len], hR.cx, ?_, ?_, hR.x, ?_, ?_, ?_⟩
+    · intro hd; exact hdisc _ (by rw [hl]) hd
+    · intro u ts hu
+      rcases oldT u ts hu with ⟨_, h0⟩ | ⟨hul, hts⟩
+      · obtain ⟨e, he, hm⟩ := hR.corr u ts h0
+        exact ⟨e, getElem?_snoc_left _ _ _ _ he, hm⟩
+      · subst hts
+        refine ⟨.hold none true, by simp only; rw [hul, ← hR.len]; simp, ?_⟩
+        have := hcb ms.xposs; rw [hl] at this; rw [hul]; exact this
+    · intro u ts q v hu hq hlq
+      rcases oldT u ts hu with ⟨_, h0⟩ | ⟨_, hts⟩
+      · exact hR.pendx u ts q v h0 hq hlq
+      · subst hts; rw [hpb] at hq; cases hq; rw [hl] at hlq; cases hlq
+    · simp only [countP_append_one, isPendSet]; simpa using hR.nset
+    · intro d saved hs
+      obtain ⟨v, h1, h2, h3, h4⟩ := hR.solo d saved hs
+      refine ⟨v, getElem?_snoc_left _ _ _ _ h1, h2, h3, ?_⟩
+      intro ts hu
+      rcases oldT d ts hu with ⟨_, h0⟩ | ⟨hdl, _⟩
+      · exact h4 ts h0
+      · have := lt_of_getElem? h1; rw [hR.len] at this; omega
+  | some v =>
+    refine ⟨_, rfl, ?_⟩
+    have hlenm : (ms.calls.map (WEntry.see v)).length = s.th.length := by simp [hR.len]
+    refine ⟨hinv, by simp [hR.len], hR.cx, ?_, ?_, ?_, ?_, ?_, ?_⟩
+    · intro hd; exact hdisc _ (by rw [hl]) hd
+    · intro u ts hu
+      rcases oldT u ts hu with ⟨hlt, h0⟩ | ⟨hul, hts⟩
+      · obtain ⟨e, he, hm⟩ := hR.corr u ts h0
+        refine ⟨e.see v, ?_, corrW_see _ _ _ _ _ _ hm⟩
+        simp only
+        rw [List.getElem?_append_left (by rw [hlenm]; exact hlt), getElem?_map_see, he]; rfl
+      · subst hts
+        refine ⟨.hold (some v) true, ?_, ?_⟩
+        · simp only
+          rw [List.getElem?_append_right (by rw [hlenm]; omega), hlenm, hul]; simp
+        · have := hcb (v :: ms.xposs); rw [hl] at this; rw [hul]; exact this
+    · simp only; simp [hR.x]
+    · intro u ts q v' hu hq hlq
+      simp only
+      rcases oldT u ts hu with ⟨_, h0⟩ | ⟨_, hts⟩
+      · simp [hR.pendx u ts q v' h0 hq hlq]
+      · subst hts; rw [hpb] at hq; cases hq; rw [hl] at hlq; cases hlq; simp
+    · simp only [countP_append_one, isPendSet, countP_map_see]; simpa using hR.nset
+    · intro d saved hs
+      simp only at hs
+      split at hs <;> simp at hs
+      rename_i hn0
+      obtain ⟨hd, hsv⟩ := hs
+      subst hsv
+      refine ⟨v, ?_, by simp only; omega, by intro w hw; simp [hw], ?_⟩
+      · simp only
+        rw [← hd, List.getElem?_append_right (by simp), ]
+        simp
+      · intro ts hu
+        rcases oldT d ts hu with ⟨hlt, _⟩ | ⟨_, hts⟩
+        · rw [← hd, hR.len] at hlt; omega
+        · subst hts; exact hsb _ _ _ hR.x
+
+theorem relW_invWait (s : St) (ms : WaitSt) (b : TS) (po : Option Pred)
+    (hR : RelW s ms) (hinv : Inv { s with th := s.th ++ [b] })
+    (htidy : ms.disc = true → Tidy { s with th := s.th ++ [b] })
+    (hpb : TS.pendingProg b = none)
+    (hcb : ∀ seen, (∀ w ∈ ms.xposs, w ∈ seen) → CorrW ms.xposs s.cx s.th.length (.wait po seen) b) :
+    RelW { s with th := s.th ++ [b] } { ms with calls := ms.calls ++ [.wait po ms.xposs] } := by
+  have oldT : ∀ (u : Nat) (ts : TS), (s.th ++ [b])[u]? = some ts →
+      (u < s.th.length ∧ s.th[u]? = some ts) ∨ (u = s.th.length ∧ ts = b) :=
+    fun u ts hu => getElem?_snoc_cases s.th b ts u hu
+  refine ⟨hinv, by simp [hR.len], hR.cx, htidy, ?_, hR.x, ?_, ?_, ?_⟩
+  · intro u ts hu
+    rcases oldT u ts hu with ⟨_, h0⟩ | ⟨hul, hts⟩
+    · obtain ⟨e, he, hm⟩ := hR.corr u ts h0
+      exact ⟨e, getElem?_snoc_left _ _ _ _ he, hm⟩
+    · subst hts
+      refine ⟨.wait po ms.xposs, by simp only; rw [hul, ← hR.len]; simp, ?_⟩
+      rw [hul]; exact hcb _ (fun w h => h)
+  · intro u ts q v hu hq hlq
+    rcases oldT u ts hu with ⟨_, h0⟩ | ⟨_, hts⟩
+    · exact hR.pendx u ts q v h0 hq hlq
+    · subst hts; rw [hpb] at hq; cases hq
+  · simp only [countP_append_one, isPendSet]; simpa using hR.nset
+  · intro d saved hs
+    obtain ⟨v, h1, h2, h3, h4⟩ := hR.solo d saved hs
+    refine ⟨v, getElem?_snoc_left _ _ _ _ h1, h2, h3, ?_⟩
+    intro ts hu
+    rcases oldT d ts hu with ⟨_, h0⟩ | ⟨hdl, _⟩
+    · exact h4 ts h0
+    · have := lt_of_getElem? h1; rw [hR.len] at this; omega
+
+
+/-! ## the simulation step -/
+
+theorem waitAttempt_relW (s : St) (ms : WaitSt) (t : Nat) (a : TS) (p : Pred) (hR : RelW s ms)
+    (ha : s.th[t]? = some a)
+    (hca : ∀ e, CorrW ms.xposs s.cx t e a → ∃ seen, e = .wait (some p) seen ∧ ∀ w ∈ ms.xposs, w ∈ seen)
+    (htidy : ms.disc = true → Tidy (waitAttempt s t p)) : RelW (waitAttempt s t p) ms := by
+  have hinv := waitAttempt_inv s t a p hR.inv ha
+  have hseen : ∀ e, CorrW ms.xposs s.cx t e a →
+      ∃ seen, e = .wait (some p) seen ∧ s.x ∈ seen := by
+    intro e he
+    obtain ⟨seen, h1, h2⟩ := hca e he
+    exact ⟨seen, h1, h2 _ hR.x⟩
+  cases hev : p.eval s.x with
+  | done =>
+    simp only [waitAttempt, hev] at hinv htidy ⊢
+    refine relW_move s ms t a _ s.bc hR ha hinv htidy ?_ (by intro q h; cases h) (by intro _ _ _; trivial)
+    intro e he
+    obtain ⟨seen, h1, h2⟩ := hseen e he
+    subst h1
+    refine ⟨some p, seen, rfl, p, rfl, ?_⟩
+    rw [List.any_eq_true]; exact ⟨s.x, h2, by simp [hev]⟩
+  | error =>
+    simp only [waitAttempt, hev] at hinv htidy ⊢
+    refine relW_move s ms t a _ s.bc hR ha hinv htidy ?_ (by intro q h; cases h) (by intro _ _ _; trivial)
+    intro e he
+    obtain ⟨seen, h1, h2⟩ := hseen e he
+    subst h1
+    refine ⟨some p, seen, rfl, p, rfl, ?_⟩
+    rw [List.any_eq_true]; exact ⟨s.x, h2, by simp [hev]⟩
+  | notyet =>
+    simp only [waitAttempt, hev] at hinv htidy ⊢
+    refine relW_move s ms t a _ _ hR ha hinv htidy ?_ (by intro q h; cases h) (by intro _ _ _; trivial)
+    intro e he
+    exact hca e he
+
+theorem wait_sim_step (s : St) (e : Ev) (s' : St) (ms : WaitSt) (hR : RelW s ms)
+    (hs : step s e = some s') :
+    match Ev.obs e with
+    | none => RelW s' ms
+    | some o => ∃ ms', monWait.step ms o = some ms' ∧ RelW s' ms' := by
+  have hinv' := step_inv s e s' hR.inv hs
+  have htidy' : (∀ t k p, e ≠ .invHold t k p) → ms.disc = true → Tidy s' :=
+    fun hne hd => step_tidy s e s' (hR.tidy hd) hs (fun t k p he => absurd he (hne t k p))
+  cases e with
+  | invHold t k p =>
+    have hti : ms.disc = true → Prog.disciplined p = true → Tidy s' :=
+      fun hd hp => step_tidy s _ s' (hR.tidy hd) hs (fun _ _ _ he => by cases he; exact hp)
+    simp only [step] at hs; split at hs <;> try simp at hs
+    simp only [Ev.obs]
+    split at hs <;> simp at hs <;> subst hs
+    · exact relW_invHold s ms _ p hR hinv' hti rfl (by intro xp; simp [CorrW])
+        (by intro x saved v h; exact h) t _
+    · rename_i hk
+      exact relW_invHold s ms _ p hR hinv' hti rfl (by intro xp; simp [CorrW]; intro h; exact hk h)
+        (by intro x saved v h; exact h) t _
+  | holdCS t =>
+    have ht := htidy' (by intro _ _ _ h; cases h)
+    simp only [step] at hs; split at hs <;> simp at hs <;> subst hs
+    · rename_i k p h
+      exact relW_exec s ms t _ p _ hR h rfl hinv' ht
+        (by intro e hs he; simp only [CorrW] at he ⊢; exact ⟨he.1, ⟨_, he.1⟩, he.2⟩)
+        (fun _ => rfl) (by intro saved v x hs h; exact h)
+    · rename_i p rt h
+      exact relW_exec s ms t _ p _ hR h rfl hinv' ht
+        (by intro e hs he; simp only [CorrW] at he ⊢; exact ⟨he, _, he⟩)
+        (fun _ => rfl) (by intro saved v x hs h; exact h)
+  | tryFail t =>
+    have ht := htidy' (by intro _ _ _ h; cases h)
+    simp only [step] at hs; split at hs <;> simp at hs; subst hs
+    rename_i p h
+    exact relW_move s ms t _ _ s.bc hR h hinv' ht
+      (by intro e he; simp only [CorrW] at he ⊢; exact ⟨_, he.1⟩) (by intro q hq; cases hq)
+      (by intro saved v hso; exact hso)
+  | retHold t k ok =>
+    have ht := htidy' (by intro _ _ _ h; cases h)
+    simp only [step] at hs; split at hs <;> try simp at hs
+    · obtain ⟨⟨hk, hok⟩, rfl⟩ := hs; rename_i k' hs' h
+      subst hk; subst hok
+      have hC := relW_finish s ms t _ (.done hs') true hR h hinv' ht
+        (by intro e he; simp only [CorrW] at he; exact he.1)
+        (by intro xp sv; simp only [CorrW]; exact Or.inl ⟨sv, rfl⟩) rfl
+        (by intro saved v hso; simpa [SoloOK] using hso)
+      obtain ⟨e, _, hm⟩ := hR.corr t _ h
+      simp only [CorrW] at hm
+      simp only [Ev.obs, monWait]
+      cases k with
+      | hold => exact ⟨_, rfl, hC⟩
+      | «try» => exact ⟨_, rfl, hC⟩
+      | maybe => exact absurd rfl hm.2
+    · obtain ⟨⟨hk, hok⟩, rfl⟩ := hs; rename_i h
+      subst hk; subst hok
+      refine ⟨_, rfl, ?_⟩
+      exact relW_finish s ms t _ (.done []) false hR h hinv' ht
+        (by intro e he; simpa only [CorrW] using he)
+        (by intro xp sv; simp only [CorrW]; exact Or.inl ⟨sv, rfl⟩) rfl
+        (by intro saved v hso; simpa [SoloOK] using hso)
+    · obtain ⟨⟨hk, hok⟩, rfl⟩ := hs; rename_i p h
+      subst hk
+      refine ⟨ms, rfl, ?_⟩
+      exact relW_move s ms t _ _ s.bc hR h hinv' ht
+        (by intro e he; simpa only [CorrW] using he) (by intro q hq; exact hq)
+        (by intro saved v hso; exact hso)
+    · obtain ⟨⟨hk, hok⟩, rfl⟩ := hs; rename_i hs' cb h
+      subst hk
+      refine ⟨ms, rfl, ?_⟩
+      cases cb with
+      | true =>
+        simp only [if_true] at hinv' ht ⊢
+        exact relW_move s ms t _ _ s.bc hR h hinv' ht
+          (by intro e he; simp only [CorrW] at he ⊢; exact Or.inl he) (by intro q hq; cases hq)
+          (by intro saved v hso; trivial)
+      | false =>
+        simp only [Bool.false_eq_true, if_false] at hinv' ht ⊢
+        exact relW_move s ms t _ _ s.bc hR h hinv' ht
+          (by intro e he; simpa only [CorrW] using he) (by intro q hq; cases hq)
+          (by intro saved v hso; exact hso)
+  | cbout t =>
+    have ht := htidy' (by intro _ _ _ h; cases h)
+    simp only [step] at hs; split at hs <;> simp at hs; subst hs
+    rename_i hs' rt h
+    refine ⟨_, rfl, ?_⟩
+    refine relW_finish s ms t _ _ true hR h hinv' ht
+      (by intro e he; simpa only [CorrW] using he) ?_ (by cases rt <;> rfl)
+      (by intro saved v hso; simpa [SoloOK] using hso)
+    intro xp sv
+    cases rt with
+    | true => simp only [if_true, CorrW]; exact Or.inl ⟨sv, rfl⟩
+    | false => simp only [Bool.false_eq_true, if_false, CorrW]; exact ⟨sv, rfl⟩
+  | invWait t p =>
+    have ht := htidy' (by intro _ _ _ h; cases h)
+    simp only [step] at hs; split at hs <;> try simp at hs
+    simp only [Ev.obs, monWait]
+    refine ⟨_, rfl, ?_⟩
+    split at hs <;> simp at hs <;> subst hs
+    · exact relW_invWait s ms _ _ hR hinv' ht rfl (by intro seen hsub; exact ⟨seen, rfl, hsub⟩)
+    · exact relW_invWait s ms _ _ hR hinv' ht rfl (by intro seen hsub; exact ⟨none, seen, rfl, rfl⟩)
+  | waitCS t =>
+    have ht := htidy' (by intro _ _ _ h; cases h)
+    simp only [step] at hs; split at hs <;> simp at hs; subst hs
+    rename_i p h
+    exact waitAttempt_relW s ms t _ p hR h (by intro e he; exact he) ht
+  | wakeCS t =>
+    have ht := htidy' (by intro _ _ _ h; cases h)
+    simp only [step] at hs; split at hs <;> simp at hs
+    obtain ⟨_, rfl⟩ := hs; rename_i p c h _
+    exact waitAttempt_relW s ms t _ p hR h (by intro e he; exact he) ht
+  | ctxRet t =>
+    have ht := htidy' (by intro _ _ _ h; cases h)
+    simp only [step] at hs; split at hs <;> simp at hs
+    obtain ⟨hcx, rfl⟩ := hs; rename_i p h
+    exact relW_move s ms t _ _ s.bc hR h hinv' ht
+      (by intro e he
+          obtain ⟨seen, h1, _⟩ := he
+          exact ⟨some p, seen, h1, by simpa using hcx⟩)
+      (by intro q hq; cases hq) (by intro _ _ _; trivial)
+  | ctxTake t =>
+    have ht := htidy' (by intro _ _ _ h; cases h)
+    simp only [step] at hs; split at hs <;> simp at hs
+    obtain ⟨hcx, rfl⟩ := hs; rename_i p c h
+    exact relW_move s ms t _ _ s.bc hR h hinv' ht
+      (by intro e he
+          obtain ⟨seen, h1, _⟩ := he
+          exact ⟨some p, seen, h1, by simpa using hcx⟩)
+      (by intro q hq; cases hq) (by intro _ _ _; trivial)
+  | retWait t r =>
+    have ht := htidy' (by intro _ _ _ h; cases h)
+    simp only [step] at hs; split at hs <;> simp at hs
+    obtain ⟨hr, rfl⟩ := hs; rename_i r' h
+    subst hr
+    obtain ⟨e, he, hm⟩ := hR.corr t _ h
+    obtain ⟨po, seen, h1, h2⟩ := hm
+    subst h1
+    have hmove : RelW { s with th := s.th.set t (.done []) } ms :=
+      relW_move s ms t _ _ s.bc hR h hinv' ht
+        (by intro e' he'
+            obtain ⟨po', seen', h1', _⟩ := he'
+            exact Or.inr ⟨po', seen', h1'⟩)
+        (by intro q hq; cases hq) (by intro _ _ _; trivial)
+    refine ⟨ms, ?_, hmove⟩
+    simp only [monWait, he]
+    cases r with
+    | nil => obtain ⟨p, hp, ha⟩ := h2; subst hp; simp [ha]
+    | err => obtain ⟨p, hp, ha⟩ := h2; subst hp; simp [ha]
+    | canceled =>
+      have : ms.cancelled.contains t = true := by rw [hR.cx]; exact h2
+      cases po <;> (simp; simpa using this)
+    | badarg => simp only at h2; subst h2; rfl
+  | envCancel t =>
+    simp only [step] at hs; split at hs <;> simp at hs; subst hs
+    refine ⟨_, rfl, ?_⟩
+    refine ⟨⟨hR.inv.bcwf, hR.inv.handles, hR.inv.parked⟩, hR.len, by simp [hR.cx], hR.tidy, ?_, hR.x,
+      hR.pendx, hR.nset, hR.solo⟩
+    intro u ts hu
+    obtain ⟨e, he, hm⟩ := hR.corr u ts hu
+    refine ⟨e, he, ?_⟩
+    cases ts with
+    | wRet r =>
+      obtain ⟨po, seen, h1, h2⟩ := hm
+      refine ⟨po, seen, h1, ?_⟩
+      cases r with
+      | canceled => simp only at h2 ⊢; simp; right; simpa using h2
+      | nil => exact h2
+      | err => exact h2
+      | badarg => exact h2
+    | mRan hs cb rt => cases cb <;> exact hm
+    | holdInv k p => exact hm
+    | mInv p rt => exact hm
+    | holdRan k hs => exact hm
+    | tryFailed => exact hm
+    | done hs => exact hm
+    | wInv p => exact hm
+    | wParked p ch => exact hm
+  | probe t k cl =>
+    simp only [step] at hs; split at hs <;> try simp at hs
+    split at hs <;> try simp at hs
+    obtain ⟨_, rfl⟩ := hs
+    exact ⟨ms, rfl, hR⟩
+  | quiesce B =>
+    simp only [step] at hs; split at hs <;> simp at hs
+    rename_i hcond
+    subst hs
+    obtain ⟨hq, hB⟩ := hcond
+    refine ⟨ms, ?_, hR⟩
+    simp only [monWait]
+    by_cases hc : (ms.disc && ms.nset == 0) = true
+    · simp only [hc, if_true]
+      cases hk : knownX ms.xposs with
+      | none => rfl
+      | some v =>
+        simp only
+        rw [if_pos]
+        · rw [List.all_eq_true]
+          intro c hcB
+          rw [hB] at hcB
+          simp only [pendingIds, List.mem_filter, List.mem_range] at hcB
+          obtain ⟨hlt, hm⟩ := hcB
+          cases hth : s.th[c]? with
+          | none => simp [hth] at hm
+          | some ts =>
+            cases ts <;> simp [hth] at hm
+            rename_i p ch
+            obtain ⟨e, he, hce⟩ := hR.corr c _ hth
+            obtain ⟨seen, h1, _⟩ := hce
+            subst h1
+            simp only [he]
+            -- quiescent ⇒ the channel is open; disciplined ⇒ predicate not done
+            have hopen : s.bc.closed ch = false := by
+              unfold quiescent at hq
+              rw [List.all_eq_true] at hq
+              have := hq c (by simp [hlt])
+              simp only [hth, TS.quiet] at this
+              simp at this
+              exact this.1
+            simp at hc
+            have hd := (hR.tidy hc.1).1
+            have hev := ((hR.inv.parked c p ch hth).2 hd hopen)
+            have hxv : s.x = v := knownX_spec _ _ hk _ hR.x
+            rw [← hxv, hev]; rfl
+    · simp only [hc]; rfl
 
 end UtilModel.Broadcast
